@@ -17,6 +17,7 @@ import (
 	"runtime/debug"
 	"sort"
 	"strings"
+	"syscall"
 	"time"
 )
 
@@ -106,7 +107,7 @@ type state struct {
 	watchdogHit bool
 	mapDesc     bool
 	enabledBuf  []*Thread
-	highFirst   bool // default scheduler prefers the youngest (highest id) enabled thread instead of the oldest
+	highFirst   bool     // default scheduler prefers the youngest (highest id) enabled thread instead of the oldest
 	preemptIn   []string // function-name prefixes whose points may be preempted (nil = everywhere)
 	switchCost  int      // cost of a non-default choice when the running thread cannot continue (0 = preemption bounding, 1 = delay bounding)
 }
@@ -197,11 +198,21 @@ func Run(cfg Config, root func()) *Result {
 		case th.wake <- struct{}{}:
 		default:
 		}
-		select {
-		case <-th.done:
-		case <-time.After(20 * time.Second):
+		// Watchdog: a thread that does not exit is an engine error. The wait is made of several separate timers so that
+		// one jump of the real clock (a suspended machine, a snapshot) cannot expire it while the thread is about to exit.
+		exited := false
+		for round := 0; round < 6 && !exited; round++ {
+			select {
+			case <-th.done:
+				exited = true
+			case <-time.After(20 * time.Second):
+			}
+		}
+		if !exited {
 			s.watchdogHit = true
-			fmt.Printf("ENGINE-ERROR: vsched: thread %d (%s) did not exit during abort\n%s\n", th.ID, th.Name, allStacks())
+			msg := fmt.Sprintf("ENGINE-ERROR: vsched: thread %d (%s) did not exit during abort\n%s\n", th.ID, th.Name, allStacks())
+			fmt.Print(msg)
+			_, _ = syscall.Write(2, []byte(msg)) // os.Stderr may be redirected while an execution runs
 			panic("vsched: abort watchdog")
 		}
 	}
@@ -618,7 +629,9 @@ func addTimer(d time.Duration, period time.Duration, fire func()) *timer {
 }
 
 // AddTimer registers a virtual timer (used by vtime).
-func AddTimer(d, period time.Duration, fire func()) interface{ Stop() bool } { return addTimer(d, period, fire) }
+func AddTimer(d, period time.Duration, fire func()) interface{ Stop() bool } {
+	return addTimer(d, period, fire)
+}
 
 func (tm *timer) Stop() bool {
 	was := !tm.dead
